@@ -16,16 +16,17 @@
 //	setops/big         15..70001 elements on both sides of the powers of two, s2 tiny or far longer than s1 (table-indexed references)
 //	setops/keep        serial: the same s1/s2/dst buffers call after call with contents rewritten in place; inputs unchanged when dst is separate memory; results in own memory stay as returned
 //	big/bounds         SubSlice/Copy/Remove/Index/Equal/Chunk/ChunkProcess/Values on 15..70001 elements
+//	flex/types         FlexSlice[uint16], [string], [[3]int], [{string;int64;bool}] (2, 16, 24, 32-byte elements) vs. the plain-slice model, incl. Prepend/Append of sub-slices of the own Values
 package main
 
 import "verif/ev"
 
 func main() {
 	r := ev.New("C14")
-	r.Rule("setops/rand: one case = 10 inputs, setops/small-*: one case = 1 input; an input = (s1, s2) over an alphabet of 1..9 values (int, string or {key,id} pair elements; nil, empty, duplicates), an input aliasing mode (independent, s2==s1, s2=s1[a:b], s1=s2[a:b]), a key function and a predicate; all 5 functions with several dst layouts (nil, empty, spare/short capacity, non-empty garbage, s1[:0], s1[:k], s1[:0:0], s2[:0]) and the 5 in-place variants run on it; distinct = hash of (element type, contents, aliasing, key, predicate) of all inputs of the case, non-trivial = s1 has 2+ elements or s2 is non-empty. bounds: one case = one slice (nil/empty/1..33 elements, spare capacity holding poison) with every start/end/length/index in -3..len+3 plus MinInt/MaxInt and every chunk size in -2..len+3; distinct = hash of contents and layout. flex: one case = an operation sequence on a FlexSlice (zero value or caller-built Values with spare capacity) with the whole sequence compared after every operation; distinct = hash of the operation sequence. setops/float: one case = 6 inputs over {NaN, 0, -0, 1, 2, +Inf, -1} (plain floats or {K float64, ID} structs), aliasing independent / s2==s1 / s2=s1[a:b], dst nil / fresh / s1[:0] / s2[:0]; distinct = hash of contents and aliasing. setops/big and big/bounds: one case = one input of 15..70001 ints; distinct = hash of lengths, alphabet, aliasing and the first 64 elements. setops/keep: one case = 6..14 calls on the same three buffers; distinct = hash of (buffer edit, function, dst layout, contents) per step. flex/window, flex/big, flex/sparearg: as flex (hash of the operation sequence / of the arena layout).")
+	r.Rule("setops/rand: one case = 10 inputs, setops/small-*: one case = 1 input; an input = (s1, s2) over an alphabet of 1..9 values (int, string or {key,id} pair elements; nil, empty, duplicates), an input aliasing mode (independent, s2==s1, s2=s1[a:b], s1=s2[a:b]), a key function and a predicate; all 5 functions with several dst layouts (nil, empty, spare/short capacity, non-empty garbage, s1[:0], s1[:k], s1[:0:0], s1[:0:c] with room for a part of the result only, s2[:0]) and the 5 in-place variants run on it; distinct = hash of (element type, contents, aliasing, key, predicate) of all inputs of the case, non-trivial = s1 has 2+ elements or s2 is non-empty. bounds: one case = one slice (nil/empty/1..33 elements, spare capacity holding poison) with every start/end/length/index in -3..len+3 plus MinInt/MaxInt and every chunk size in -2..len+3; distinct = hash of contents and layout. flex: one case = an operation sequence on a FlexSlice (zero value or caller-built Values with spare capacity) with the whole sequence compared after every operation; distinct = hash of the operation sequence. setops/float: one case = 6 inputs over {NaN, 0, -0, 1, 2, +Inf, -1} (plain floats or {K float64, ID} structs), aliasing independent / s2==s1 / s2=s1[a:b], dst nil / fresh / s1[:0] / s2[:0]; distinct = hash of contents and aliasing. setops/big and big/bounds: one case = one input of 15..70001 ints; distinct = hash of lengths, alphabet, aliasing and the first 64 elements. setops/keep: one case = 6..14 calls on the same three buffers; distinct = hash of (buffer edit, function, dst layout, contents) per step. flex/window, flex/big, flex/sparearg, flex/types: as flex (hash of the operation sequence / of the arena layout; flex/types also of the element type).")
 	r.Assume("the references (nested loops, written from the doc comments) are the definitions: Diff/Intersect/Filter keep the elements of s1 that are absent from / present in s2 / satisfy the predicate, Unique/UniqueByKey keep the first occurrence per value / key")
 	r.Assume("results are compared by content: nil and empty are the same observation; capacities are read for coverage counters only")
-	r.Assume("dst aliasing is exercised as the prefix [:0] (or [:k], [:0:0]) of an input; when s2 is itself a sub-slice of s1 starting behind s1[0], dst = s2[:0] is not used (a destination in the middle of the slice being read is not covered by the statement)")
+	r.Assume("dst aliasing is exercised as the prefix [:0] (or [:k], [:0:0]) of an input; this includes dst = s2[:0] when s2 is itself a part of s1 that starts behind s1[0]")
 	r.Assume("Chunk/ChunkProcess: a piece is non-empty; for a chunk size below 1 only 'concatenation = input' is demanded; an error returned by the callback ends the iteration and is returned")
 	r.Assume("SubSlice/Copy clamping as documented: negative start counts as 0, negative or oversized end/length means 'to the end', an empty window is an empty result; for out-of-range Get/Remove/Pop/Shift only ok=false and an unchanged sequence are demanded")
 
@@ -55,6 +56,7 @@ func main() {
 	r.Cases("setops/big", r.N(400, 8000), ev.Opt{HangViolation: true}, bigSetCase)
 	r.Cases("big/bounds", r.N(300, 6000), ev.Opt{HangViolation: true}, boundsBigCase)
 	r.Cases("setops/keep", r.N(20000, 300000), ev.Opt{HangViolation: true, Serial: true}, keepCase)
+	r.Cases("flex/types", r.N(8000, 160000), ev.Opt{HangViolation: true}, flexTypedCase)
 	r.Require("equal_nan_cases", 1000)
 	r.Require("flex_selfarg_capacity_limited_arg", 500)
 
@@ -63,6 +65,7 @@ func main() {
 		r.Require(k, 50000)
 	}
 	r.Require("dst_layout/s1[:0]", 50000)
+	r.Require("dst_is_prefix_of_s2_inside_s1", 300)
 	r.Require("dst_layout/s2[:0]", 10000)
 	r.Require("aliased_dst_nonempty_result", 50000)
 	r.Require("inplace_argument_reordered", 20000)
@@ -134,5 +137,103 @@ func main() {
 	r.Require("keep_same_call_again_only_s2_content_changed", 3000)
 	r.Require("keep_same_call_again_only_s1_content_changed", 3000)
 	r.Require("keep_same_call_again_nothing_changed", 1000)
+
+	// clause-coverage audit: every named function, argument class and layout that the
+	// statement quantifies over has a floor of its own (far below a healthy run)
+	for _, k := range []string{"calls/UniqueByKey", "calls/Filter", "calls/UniqueByKeyInPlace", "calls/FilterInPlace"} {
+		r.Require(k, 50000)
+	}
+	for _, k := range []string{"Diff", "Intersect", "Unique", "UniqueByKey", "Filter"} {
+		r.Require("aliased_dst_calls/"+k, 50000)
+	}
+	r.Require("dst_is_prefix_of_s2_calls/Diff", 10000)
+	r.Require("dst_is_prefix_of_s2_calls/Intersect", 10000)
+	for _, k := range []string{"nil", "empty-cap0", "fresh-spare-cap", "fresh-short-cap", "fresh-garbage-len", "s1[:k]", "s1[:0:0]", "s1[:0:c]"} {
+		r.Require("dst_layout/"+k, 50000)
+	}
+	r.Require("aliased_dst_room_exhausted_midway", 20000)
+	r.Require("dst_had_to_grow", 50000)
+	for _, k := range aliasNames {
+		r.Require("input_aliasing/"+k, 20000)
+	}
+	for _, k := range []string{"int", "string", "pair"} {
+		r.Require("setops_inputs_of_element_type/"+k, 20000)
+	}
+	r.Require("s1_nil", 3000)
+	r.Require("s1_empty", 10000)
+	r.Require("s2_nil", 3000)
+	r.Require("s2_empty", 10000)
+	r.Require("result_empty", 200000)
+	r.Require("result_all_of_s1", 200000)
+	r.Require("result_proper_subsequence", 200000)
+	r.Require("float_calls", 300000)
+	r.Require("setops_big_calls", 3000)
+
+	r.Require("calls/Remove", 100000)
+	r.Require("calls/Chunk", 100000)
+	r.Require("calls/ChunkProcess", 100000)
+	r.Require("calls/Equal", 200000)
+	r.Require("calls/Index+Contains", 300000)
+	r.Require("calls/Values", 20000)
+	r.Require("bounds_input_nil", 500)
+	r.Require("bounds_input_empty", 500)
+	r.Require("bounds_input_spare_capacity", 5000)
+	for _, k := range []string{"subslice_start_negative", "subslice_start_beyond_len", "subslice_end_negative", "subslice_end_beyond_len", "subslice_inverted",
+		"copy_start_negative", "copy_start_beyond", "copy_length_negative", "copy_length_clamped"} {
+		r.Require(k, 300000)
+	}
+	r.Require("subslice_start_eq_len", 100000)
+	r.Require("copy_length_zero", 100000)
+	r.Require("remove_first", 10000)
+	r.Require("remove_last", 10000)
+	r.Require("index_found", 20000)
+	r.Require("index_found_with_later_duplicate", 5000)
+	r.Require("index_absent", 100000)
+	r.Require("chunk_size_ge_len", 50000)
+	r.Require("chunk_empty_input", 10000)
+	r.Require("chunkprocess_error_stops", 100000)
+	r.Require("equal_prefix_pairs", 10000)
+	for _, k := range []string{"values_with_0_slices", "values_with_1_slices", "values_with_2_slices", "values_with_3_slices"} {
+		r.Require(k, 2000)
+	}
+	r.Require("bounds_big_equal_calls", 2000)
+	r.Require("bounds_big_remove_calls", 1000)
+	r.Require("bounds_big_subslice_copy_calls", 2000)
+	r.Require("bounds_big_chunk_calls", 1000)
+
+	r.Require("flex_ops/Append", 200000)
+	r.Require("flex_ops/Prepend", 200000)
+	r.Require("flex_ops/Get", 200000)
+	r.Require("flex_ops/Remove", 200000)
+	r.Require("flex_ops/Pop", 500000)
+	r.Require("flex_ops/Shift", 500000)
+	r.Require("flex_ops/SubSlice", 100000)
+	r.Require("flex_get_out_of_range", 20000)
+	r.Require("flex_removal_out_of_range_or_empty", 100000)
+	r.Require("flex_append_nothing", 20000)
+	r.Require("flex_prepend_nothing", 20000)
+	r.Require("flex_prepend_to_empty", 10000)
+	r.Require("flex_append_reallocated", 50000)
+	r.Require("flex_start_zero_value", 2000)
+	r.Require("flex_start_preset_spare_capacity", 5000)
+	r.Require("flex_subslice_shrunk_copy", 5000)
+	r.Require("flex_prepend_fills_capacity_exactly", 5000)
+	r.Require("flex_prepend_one_over_capacity", 5000)
+	r.Require("flex_one_above_quarter_no_shrink", 20000)
+	r.Require("flex_selfarg_append", 2000)
+	for _, in := range []string{typedU16.name, typedStr.name, typedW3.name, typedRec.name} {
+		r.Require("flex_typed_cases/"+in, 1000)
+		r.Require("flex_typed_ops/"+in, 15000)
+		r.Require("flex_typed_selfarg_prepend/"+in, 2500)
+		r.Require("flex_typed_selfarg_prepend_within_capacity_offset_arg/"+in, 1000)
+		r.Require("flex_typed_selfarg_prepend_within_capacity_arg_in_second_half/"+in, 500)
+		r.Require("flex_typed_selfarg_append/"+in, 800)
+		r.Require("flex_typed_prepend_within_capacity/"+in, 500)
+		r.Require("flex_typed_prepend_reallocating/"+in, 300)
+		r.Require("flex_typed_shrinks/"+in, 1000)
+		r.Require("flex_typed_subslice_adopted/"+in, 300)
+		r.Require("flex_typed_get_out_of_range/"+in, 300)
+		r.Require("flex_typed_removal_out_of_range_or_empty/"+in, 2000)
+	}
 	r.Finish()
 }
